@@ -65,9 +65,9 @@ pub proof fn lemma_push_contains<T>(s: Seq<T>, v: T)
 pub open spec fn other_mode(x: WatchedPath) -> WatchedPath { WatchedPath { path: x.path, recursive: !x.recursive } }
 // a successful unwatch of a recorded path, removed from the record, keeps the record a mirror
 pub proof fn lemma_mirror_unwatch(w0: WatcherS, w1: WatcherS, ps0: Set<WatchedPath>, ps1: Set<WatchedPath>, kind: Watcher, x: WatchedPath)
-    requires mirror(Some(w0), ps0, kind), w1.kind == w0.kind, w1.registered@ == w0.registered@.remove(x.path), // OBL:C13.fs_worker.inv_pathset_mirrors_the_active_watcher
-        ps1 =~= ps0.remove(x), // OBL:C13.fs_worker.inv_pathset_mirrors_the_active_watcher
-        forall|y: WatchedPath| ps0.contains(y) && y.path == x.path ==> y == x, // OBL:C13.fs_worker.inv_pathset_mirrors_the_active_watcher
+    requires mirror(Some(w0), ps0, kind), w1.kind == w0.kind, w1.registered@ == w0.registered@.remove(x.path), // OBL:C13+C01.fs_worker.inv_pathset_mirrors_the_active_watcher
+        ps1 =~= ps0.remove(x), // OBL:C13+C01.fs_worker.inv_pathset_mirrors_the_active_watcher
+        forall|y: WatchedPath| ps0.contains(y) && y.path == x.path ==> y == x, // OBL:C13+C01.fs_worker.inv_pathset_mirrors_the_active_watcher
     ensures mirror(Some(w1), ps1, kind),
 {
     assert forall|p: PathS| #[trigger] w1.registered@.contains_key(p) implies ps1.contains(WatchedPath { path: p, recursive: w1.registered@[p] }) by {
@@ -76,8 +76,8 @@ pub proof fn lemma_mirror_unwatch(w0: WatcherS, w1: WatcherS, ps0: Set<WatchedPa
 }
 // a successful watch replaces the registration of that path: with the other-mode record dropped and the new one added, the record stays a mirror
 pub proof fn lemma_mirror_watch(w0: WatcherS, w1: WatcherS, ps0: Set<WatchedPath>, ps1: Set<WatchedPath>, kind: Watcher, x: WatchedPath)
-    requires mirror(Some(w0), ps0, kind), w1.kind == w0.kind, w1.registered@ == w0.registered@.insert(x.path, x.recursive), // OBL:C13.fs_worker.inv_pathset_mirrors_the_active_watcher
-        ps1 =~= ps0.remove(other_mode(x)).insert(x), // OBL:C13.fs_worker.inv_pathset_mirrors_the_active_watcher
+    requires mirror(Some(w0), ps0, kind), w1.kind == w0.kind, w1.registered@ == w0.registered@.insert(x.path, x.recursive), // OBL:C13+C01.fs_worker.inv_pathset_mirrors_the_active_watcher
+        ps1 =~= ps0.remove(other_mode(x)).insert(x), // OBL:C13+C01.fs_worker.inv_pathset_mirrors_the_active_watcher
     ensures mirror(Some(w1), ps1, kind),
 {
     assert forall|y: WatchedPath| #[trigger] ps1.contains(y) implies w1.registered@.contains_key(y.path) && w1.registered@[y.path] == y.recursive by {
@@ -99,7 +99,7 @@ pub proof fn lemma_distinct(cfg: Seq<WatchedPath>, x: WatchedPath, y: WatchedPat
 pub proof fn lemma_watch_step(cfg: Seq<WatchedPath>, ps0: Set<WatchedPath>, ps1: Set<WatchedPath>, v: Seq<WatchedPath>, pos: int, x: WatchedPath, clean: bool)
     requires distinct_paths(cfg), 0 <= pos < v.len(), v[pos] == x,
         forall|j: int| 0 <= j < v.len() ==> cfg.contains(#[trigger] v[j]),
-        ps1 =~= ps0.remove(other_mode(x)).insert(x), // OBL:C13.fs_worker.inv_registration_converges_to_the_configuration
+        ps1 =~= ps0.remove(other_mode(x)).insert(x), // OBL:C13+C01.fs_worker.inv_registration_converges_to_the_configuration
         clean ==> forall|y: WatchedPath| ps0.contains(y) ==> cfg.contains(y),
         clean ==> forall|y: WatchedPath| cfg.contains(y) ==> ps0.contains(y) || v.contains(y),
         clean ==> forall|j: int| 0 <= j < pos ==> ps0.contains(#[trigger] v[j]),
